@@ -26,7 +26,7 @@ const modelAssumption = "trusted base: the SpecVM reference model (harness/specv
 
 // C04 — navigation stack and page index follow the move table
 func C04() *vk.Check {
-	mc := &modelCheck{ID: "C04", Kinds: kinds("position", "exec-error"), Drivers: []string{"long", "mem", "fs"}, HistLen: [2]int{4, 40}, N: [2]int{4000, 120000},
+	mc := &modelCheck{ID: "C04", Kinds: kinds("position", "exec-error"), Drivers: []string{"long", "mem", "fs", "resume"}, HistLen: [2]int{4, 40}, N: [2]int{4000, 120000},
 		Profile: func(r *vk.RNG) app.Profile {
 			p := specProfile(r)
 			p.MaxNodes = 9
@@ -42,7 +42,7 @@ func C04() *vk.Check {
 
 // C03 — input routed by the first matching INCMP, once
 func C03() *vk.Check {
-	mc := &modelCheck{ID: "C03", Kinds: kinds("position", "code-events", "page-text", "cont"), Drivers: []string{"long", "mem"}, HistLen: [2]int{2, 12}, N: [2]int{8000, 200000},
+	mc := &modelCheck{ID: "C03", Kinds: kinds("position", "code-events", "page-text", "cont"), Drivers: []string{"long", "mem", "resume"}, HistLen: [2]int{2, 12}, N: [2]int{8000, 200000},
 		Profile: func(r *vk.RNG) app.Profile {
 			p := specProfile(r)
 			p.Interleave = true
@@ -60,7 +60,7 @@ func C03() *vk.Check {
 
 // C05 — loaded symbols live as long as their stack level
 func C05() *vk.Check {
-	mc := &modelCheck{ID: "C05", Kinds: kinds("calls", "cache", "page-text", "over-limit", "exec-error"), Drivers: []string{"long", "mem", "fs"}, HistLen: [2]int{4, 30}, N: [2]int{4000, 120000},
+	mc := &modelCheck{ID: "C05", Kinds: kinds("calls", "cache", "page-text", "over-limit", "exec-error"), Drivers: []string{"long", "mem", "fs", "resume"}, HistLen: [2]int{4, 30}, N: [2]int{4000, 120000},
 		// the persisted drivers go on past the end of the session (restart after a graceful end, TERMINATE cleared by the
 		// client after CROAK / dead ends): every purge of the cache must be followed by fresh loads
 		PastEnd: true,
